@@ -450,3 +450,9 @@ def consumer_stuck(sc, sysm):
   ct = sc.info["consumer"]
   waits = [n.id for n in sysm.prog(ct).nodes if isinstance(n, ir.Op) and n.name == "get" and getattr(n.target, "name", "") == "Q"]
   return lambda B, st: B.and_(B.not_(ended(sysm, B, st, ct)), B.not_(at_any(B, st, ct, waits)))
+
+
+def quiescent_lost(sc, sysm):
+  """every poster has returned and nobody can move, yet an event is still queued (lost wake-up) - needs no ghost state"""
+  done = posters_done(sc, sysm)
+  return lambda B, st: B.and_(done(B, st), B.not_(B.eq(st["D.len"], B.const(0))))
